@@ -426,6 +426,15 @@ def rules(rep, m):
     from . import siftrules
     siftrules.check_scans(rep, r8, m, only={"cmb_event_pattern_cancel"})
 
+    # R-C04-9 ------------------------------------------------------------
+    r9 = rep.rule("R-C04-9", "a process that is interrupted, preempted or stopped while it waits for another process or for an "
+                  "event is taken off *that* object's waiter list: the unwinding routine undoes every kind of awaitable with "
+                  "the matching deregistration, called on the registered object for this process (not the other way round) - "
+                  "a registration left behind resumes the process later, out of an unrelated wait (shared with R-C09-3)",
+                  floor=4)
+    from . import c09
+    c09.unwind_inverses(rep, r9, m)
+
 
 def run(tier="quick"):
     models = common.load_models(tier)
